@@ -1,8 +1,1116 @@
 package main
 
+// T-corr of C20: the Lean models of the token-cursor functions (driver nadrv-c20, `fixed = true`)
+// against the real functions of /repo (verif-tagged exports), on enumerated and random inputs:
+// result, diagnostic text or panic kind must agree.
+
 import (
+	"fmt"
+	"net"
+	"net/netip"
+	"os"
+	"path/filepath"
+	"regexp"
+	"sort"
+	"strings"
 	. "verifharness/vhlib"
+
+	"github.com/hknutzen/Netspoc-Approve/go/pkg/asa"
+	"github.com/hknutzen/Netspoc-Approve/go/pkg/cisco"
+	"github.com/hknutzen/Netspoc-Approve/go/pkg/codefiles"
+	"github.com/hknutzen/Netspoc-Approve/go/pkg/errlog"
+	"github.com/hknutzen/Netspoc-Approve/go/pkg/ios"
+	"github.com/hknutzen/Netspoc-Approve/go/pkg/linux"
+	"github.com/hknutzen/Netspoc-Approve/go/pkg/nsx"
+	"github.com/hknutzen/Netspoc-Approve/go/pkg/panos"
 )
 
-func runCorr(ctx *Ctx, res *Result)    {}
-func replayCorr(ctx *Ctx, res *Result) {}
+const (
+	cUS = "\x1f"
+	cRS = "\x1e"
+	cGS = "\x1d"
+)
+
+var ctrlRe = regexp.MustCompile("[\x1d\x1e\x1f\r]")
+
+func clean(s string) bool { return !ctrlRe.MatchString(s) && isASCII(s) }
+
+func isASCII(s string) bool {
+	for i := 0; i < len(s); i++ {
+		if s[i] >= 0x80 || s[i] == 0 {
+			return false
+		}
+	}
+	return true
+}
+
+// errCapture redirects errlog's stream into a file so that Abort messages can be read.
+type errCapture struct {
+	f   *os.File
+	off int64
+}
+
+func newErrCapture() *errCapture {
+	f, _ := os.CreateTemp("", "c20err")
+	old := os.Stderr
+	os.Stderr = f
+	errlog.SetStderrLog("")
+	os.Stderr = old
+	return &errCapture{f: f}
+}
+
+func (e *errCapture) take() string {
+	st, _ := e.f.Stat()
+	n := st.Size() - e.off
+	buf := make([]byte, n)
+	e.f.ReadAt(buf, e.off)
+	e.off = st.Size()
+	return string(buf)
+}
+
+func (e *errCapture) close() { e.f.Close(); os.Remove(e.f.Name()) }
+
+// callReal runs f with recover and canonicalises the outcome.
+func (e *errCapture) callReal(f func() string) (res string) {
+	e.take()
+	defer func() {
+		if r := recover(); r != nil {
+			if fmt.Sprintf("%T", r) == "errlog.bailout" {
+				msg := strings.TrimSuffix(e.take(), "\n")
+				msg = strings.ReplaceAll(msg, "\nERROR>>> ", "\n")
+				res = "diag:" + strings.TrimPrefix(msg, "ERROR>>> ")
+				return
+			}
+			res = "panic:" + panicKind(fmt.Sprint(r))
+		}
+	}()
+	r := f()
+	if strings.HasPrefix(r, "DIAG:") {
+		return "diag:" + strings.TrimPrefix(r, "DIAG:")
+	}
+	return "ok:" + r
+}
+
+// canonModel reduces `panic:kind:site` to `panic:kind` and undoes the newline escaping.
+func canonModel(ans string) string {
+	ans = strings.ReplaceAll(ans, cGS, "\n")
+	if strings.HasPrefix(ans, "panic:") {
+		p := strings.SplitN(ans, ":", 3)
+		return "panic:" + p[1]
+	}
+	return ans
+}
+
+type corrCtx struct {
+	ctx  *Ctx
+	res  *Result
+	drv  *Nadrv
+	ec   *errCapture
+	rng  *RNG
+	asaS *asa.State
+	iosS *ios.State
+}
+
+type corrCase struct {
+	Stream string `json:"stream"`
+	Req    string `json:"req"`
+	Extra  string `json:"extra,omitempty"`
+}
+
+func (c *corrCtx) check(stream, req string, nontrivial bool, real func() string, post func(model string) string) {
+	if !clean(strings.ReplaceAll(strings.ReplaceAll(strings.ReplaceAll(req, cUS, ""), cRS, ""), cGS, "")) {
+		c.res.Count("corr-skipped-nonascii:" + stream)
+		return
+	}
+	ans := c.drv.Ask(req)
+	model := canonModel(ans)
+	if post != nil {
+		model = post(model)
+	}
+	impl := c.ec.callReal(real)
+	c.res.Eval(stream+"\n"+req, nontrivial)
+	c.res.TracesVsImpl++
+	c.res.Count("corr:" + stream)
+	kind := strings.SplitN(impl, ":", 2)[0]
+	c.res.Count("corr-outcome:" + stream + ":" + kind)
+	if impl != model {
+		c.res.Disagree(stream, corrCase{Stream: stream, Req: strings.NewReplacer(cUS, "␟", cRS, "␞", cGS, "␝").Replace(req)}, impl, model)
+	}
+	// how the snapshot would have behaved (distribution only)
+	if strings.HasPrefix(req, "acl"+cUS+"1") || strings.HasPrefix(req, "route"+cUS+"1") || strings.HasPrefix(req, "aaa"+cUS+"1") {
+		old := canonModel(c.drv.Ask(strings.Replace(req, cUS+"1", cUS+"0", 1)))
+		if strings.HasPrefix(old, "panic:") {
+			c.res.Count("corr-snapshot-would-panic:" + stream)
+		}
+	}
+}
+
+// ---------------------------------------------------------------- generators
+
+var aclVocab = []string{"object-group", "object", "host", "any", "any4", "any6", "interface", "eq", "gt", "lt", "neq", "range",
+	"log", "log-input", "tcp", "udp", "icmp", "icmp6", "ip", "1", "6", "17", "58", "esp", "www", "ssh", "domain", "syslog",
+	"echo", "echo-reply", "unreachable", "packet-too-big", "warnings", "informational", "6", "7", "interval", "300",
+	"10.1.1.1", "10.1.1.0", "255.255.255.0", "255.255.255.255", "0.0.0.0", "::/0", "2001:db8::1/128", "2001:db8::/64",
+	"G1", "g2", "user", "user-group", "security-group", "object-group-security", "object-group-user", "inactive", "80", "443", "256", "established"}
+
+func (c *corrCtx) randTokens(n int) []string {
+	l := make([]string, n)
+	for i := range l {
+		l[i] = Pick(c.rng, aclVocab)
+	}
+	return l
+}
+
+func mutateWords(rng *RNG, w []string) []string {
+	w = append([]string{}, w...)
+	if len(w) == 0 {
+		return w
+	}
+	switch rng.Intn(6) {
+	case 0:
+		return w[:rng.Intn(len(w))+1]
+	case 1:
+		i := rng.Intn(len(w))
+		return append(w[:i], w[i+1:]...)
+	case 2:
+		i := rng.Intn(len(w))
+		return append(w[:i+1], w[i:]...)
+	case 3:
+		if len(w) > 1 {
+			i := rng.Intn(len(w) - 1)
+			w[i], w[i+1] = w[i+1], w[i]
+		}
+	case 4:
+		w[rng.Intn(len(w))] = Pick(rng, aclVocab)
+	}
+	return w
+}
+
+// testdataLines returns the configuration lines of the tests of the given types.
+func testdataLines(bases []baseCase, types ...string) []string {
+	seen := map[string]bool{}
+	var out []string
+	for _, b := range bases {
+		ok := false
+		for _, t := range types {
+			ok = ok || b.typ == t
+		}
+		if !ok {
+			continue
+		}
+		for n, text := range b.files {
+			if !isConfigFile(n) {
+				continue
+			}
+			for _, l := range strings.Split(text, "\n") {
+				if strings.TrimSpace(l) != "" && !seen[l] && len(l) < 400 {
+					seen[l] = true
+					out = append(out, l)
+				}
+			}
+		}
+	}
+	sort.Strings(out)
+	return out
+}
+
+func (c *corrCtx) runACL(lines []string, n int) {
+	asaLines, iosLines := []string{}, []string{}
+	for _, l := range lines {
+		t := strings.TrimRight(l, " ")
+		if strings.HasPrefix(t, "access-list ") && len(strings.Split(t, " ")) >= 4 {
+			asaLines = append(asaLines, t)
+		}
+		tt := strings.TrimSpace(l)
+		if strings.HasPrefix(l, " ") && (strings.HasPrefix(tt, "permit ") || strings.HasPrefix(tt, "deny ") || regexp.MustCompile(`^\d+ (permit|deny) `).MatchString(tt)) {
+			iosLines = append(iosLines, tt)
+		}
+	}
+	one := func(isASA bool, orig, parsed string) {
+		kind := "ios"
+		if isASA {
+			kind = "asa"
+		}
+		req := strings.Join([]string{"acl", "1", kind, orig, parsed}, cUS)
+		c.check("acl-"+kind, req, len(strings.Fields(parsed)) > 2, func() string {
+			p, o, ref := cisco.VerifC20PostprocessACL(isASA, orig, parsed)
+			if isASA {
+				if p == parsed && len(ref) == 0 && (len(strings.Fields(parsed)) < 3 || strings.Fields(parsed)[2] != "extended") {
+					return "-"
+				}
+				return p + cUS + strings.Join(ref, cRS)
+			}
+			return p + cUS + o + cUS + strings.Join(ref, cRS)
+		}, nil)
+	}
+	mkASA := func(w []string) (string, string) {
+		// w = words of the line after "access-list"
+		if len(w) < 1 {
+			w = []string{"X"}
+		}
+		return "access-list " + strings.Join(w, " "), "access-list $NAME " + strings.Join(w[1:], " ")
+	}
+	for i, l := range asaLines {
+		if i >= n {
+			break
+		}
+		w := strings.Split(l, " ")[1:]
+		o, p := mkASA(w)
+		one(true, o, p)
+		for k := 3; k < len(w); k++ { // every truncation that still has "NAME extended x"
+			o, p := mkASA(w[:k])
+			one(true, o, p)
+		}
+		for j := 0; j < 3; j++ {
+			m := append(append([]string{}, w[:2]...), mutateWords(c.rng, w[2:])...)
+			if len(m) >= 3 {
+				o, p := mkASA(m)
+				one(true, o, p)
+			}
+		}
+	}
+	for i, l := range iosLines {
+		if i >= n {
+			break
+		}
+		w := strings.Fields(l)
+		seq := ""
+		if regexp.MustCompile(`^\d+$`).MatchString(w[0]) {
+			seq = "$SEQ "
+		}
+		body := w
+		if seq != "" {
+			body = w[1:]
+		}
+		one(false, l, seq+strings.Join(body, " "))
+		for k := 2; k < len(body); k++ {
+			one(false, strings.Join(w[:len(w)-len(body)+k], " "), seq+strings.Join(body[:k], " "))
+		}
+		for j := 0; j < 2; j++ {
+			m := append([]string{body[0]}, mutateWords(c.rng, body[1:])...)
+			if len(m) >= 2 {
+				one(false, strings.Join(m, " "), seq+strings.Join(m, " "))
+			}
+		}
+	}
+	// random token lists
+	for i := 0; i < n; i++ {
+		t := c.randTokens(1 + c.rng.Intn(9))
+		o, p := mkASA(append([]string{"X", "extended", Pick(c.rng, []string{"permit", "deny"})}, t...))
+		one(true, o, p)
+		p2 := Pick(c.rng, []string{"permit ", "deny ", "$SEQ permit "}) + strings.Join(t, " ")
+		one(false, "10 "+p2, p2)
+	}
+	one(true, "access-list X extended permit", "access-list $NAME extended permit")
+	one(true, "access-list X extended  permit ip", "access-list $NAME extended  permit ip")
+	one(true, "access-list X standard permit 10.1.1.1", "access-list $NAME standard permit 10.1.1.1")
+}
+
+func descrString(l []cisco.VerifC20Descr) string {
+	var out []string
+	for _, d := range l {
+		var subs []string
+		for _, s := range d.Sub {
+			ig := ""
+			if s.Ignore {
+				ig = "!"
+			}
+			subs = append(subs, ig+strings.Join(s.Template, " "))
+		}
+		ig := "0"
+		if d.Ignore {
+			ig = "1"
+		}
+		out = append(out, d.Prefix+"\n"+strings.Join(d.Template, " ")+"\n"+ig+"\n"+strings.Join(subs, ";"))
+	}
+	return strings.Join(out, cRS)
+}
+
+func (c *corrCtx) runDescr() {
+	c.check("descr", "descr"+cUS+"asa", true, func() string { return descrString(c.asaS.VerifC20CmdDescr()) },
+		func(m string) string { return "ok:" + m })
+	c.check("descr", "descr"+cUS+"ios", true, func() string { return descrString(c.iosS.VerifC20CmdDescr()) },
+		func(m string) string { return "ok:" + m })
+}
+
+func (c *corrCtx) runMatch(lines []string, n int) {
+	type tmpl struct {
+		prefix string
+		l      [][]string
+		ign    []bool
+		sub    bool
+	}
+	var tops, subs []tmpl
+	for _, ds := range [][]cisco.VerifC20Descr{c.asaS.VerifC20CmdDescr(), c.iosS.VerifC20CmdDescr()} {
+		byPrefix := map[string]*tmpl{}
+		var order []string
+		for _, d := range ds {
+			t := byPrefix[d.Prefix]
+			if t == nil {
+				t = &tmpl{prefix: d.Prefix}
+				byPrefix[d.Prefix] = t
+				order = append(order, d.Prefix)
+			}
+			t.l = append(t.l, d.Template)
+			t.ign = append(t.ign, d.Ignore)
+			if len(d.Sub) > 0 {
+				s := tmpl{sub: true}
+				for _, sd := range d.Sub {
+					s.l = append(s.l, sd.Template)
+					s.ign = append(s.ign, sd.Ignore)
+				}
+				subs = append(subs, s)
+			}
+		}
+		for _, p := range order {
+			tops = append(tops, *byPrefix[p])
+		}
+	}
+	one := func(t tmpl, words []string) {
+		var ds []string
+		for i, tl := range t.l {
+			ig := "0"
+			if t.ign[i] {
+				ig = "1"
+			}
+			ds = append(ds, ig+cGS+strings.Join(tl, cGS))
+		}
+		req := strings.Join([]string{"match", t.prefix, strings.Join(words, cRS), strings.Join(ds, cRS)}, cUS)
+		c.check("matchCmd", req, len(words) > 0, func() string {
+			r := cisco.VerifC20MatchCmd(t.prefix, words, t.l, t.ign)
+			if !r.Found {
+				return "-"
+			}
+			return strings.Join([]string{fmt.Sprint(r.Idx), r.Orig, r.Parsed, r.Name, fmt.Sprint(r.Seq), strings.Join(r.Ref, cRS)}, cUS)
+		}, nil)
+	}
+	cnt := 0
+	for _, l := range lines {
+		if cnt >= n {
+			break
+		}
+		if strings.HasPrefix(l, " ") {
+			w := strings.Fields(l)
+			if len(w) == 0 {
+				continue
+			}
+			for _, s := range subs {
+				hit := false
+				for _, tl := range s.l {
+					hit = hit || len(tl) > 0 && (tl[0] == w[0] || tl[0] == "*" || tl[0] == "$SEQ")
+				}
+				if hit {
+					one(s, w)
+					one(s, mutateWords(c.rng, w))
+					cnt += 2
+				}
+			}
+		} else {
+			t := strings.TrimRight(l, " \t")
+			for _, tp := range tops {
+				if strings.HasPrefix(t, tp.prefix+" ") || t == tp.prefix {
+					w := strings.Split(strings.TrimPrefix(strings.TrimPrefix(t, tp.prefix), " "), " ")
+					if t == tp.prefix {
+						w = nil
+					}
+					one(tp, w)
+					m := mutateWords(c.rng, w)
+					one(tp, m)
+					if len(m) > 1 && c.rng.Chance(30) {
+						m2 := append([]string{}, m...)
+						m2[c.rng.Intn(len(m2))] = "" // double blank
+						one(tp, m2)
+					}
+					cnt += 2
+				}
+			}
+		}
+	}
+	// quoting
+	q := tmpl{l: [][]string{{"map-value", "memberOf", `"`, "$REF"}, {"banner", `"`}, {"*"}}, ign: []bool{false, false, true}}
+	for _, w := range [][]string{{"map-value", "memberOf", `"CN=a`, `b"`, "G"}, {"map-value", "memberOf", "x", "G"}, {"map-value", "memberOf", `"x\"`, `y"`, "G"},
+		{"map-value", "memberOf", `"CN=a`, "b"}, {"banner", `"`}, {"banner", `""`}, {"banner", `"a`, `b"`, "c"}, {"other", "x"}, {"map-value", "memberOf", `"`, `"`, "G"}} {
+		one(q, w)
+	}
+}
+
+func (c *corrCtx) runParse(bases []baseCase, n int) {
+	type cfg struct{ model, fname, data string }
+	var cfgs []cfg
+	for _, b := range bases {
+		if b.typ != "ASA" && b.typ != "IOS" {
+			continue
+		}
+		names := make([]string, 0, len(b.files))
+		for nme := range b.files {
+			names = append(names, nme)
+		}
+		sort.Strings(names)
+		for _, nme := range names {
+			if isConfigFile(nme) && strings.TrimSpace(b.files[nme]) != "" && len(b.files[nme]) < 4000 {
+				cfgs = append(cfgs, cfg{strings.ToLower(b.typ), filepath.Base(nme), b.files[nme]})
+			}
+		}
+	}
+	// the comparison of post-processing failures needs the set semantics: done in checkParse below
+	cnt := 0
+	for _, g := range cfgs {
+		if cnt >= n {
+			break
+		}
+		c.checkParse(g.model, g.fname, g.data)
+		cnt++
+		lines := strings.Split(g.data, "\n")
+		for k := 0; k < 3 && cnt < n; k++ {
+			li := c.rng.Intn(len(lines))
+			if strings.TrimSpace(lines[li]) == "" {
+				continue
+			}
+			ms := lineMutations(lines[li])
+			if len(ms) == 0 {
+				continue
+			}
+			m := Pick(c.rng, ms)
+			var nl []string
+			nl = append(nl, lines[:li]...)
+			switch {
+			case m.drop:
+			case m.dup:
+				nl = append(nl, lines[li], lines[li])
+			default:
+				nl = append(nl, m.text)
+			}
+			nl = append(nl, lines[li+1:]...)
+			c.checkParse(g.model, g.fname, strings.Join(nl, "\n"))
+			cnt++
+		}
+	}
+	for _, d := range []string{"interface E0\n  !x\n nameif inside\n", "group-policy G attributes\n  webvpn\n vpn-filter value X\n",
+		"interface E0\n   nameif a\n  shutdown\n", "interface E0\n nameif a\n    shutdown\n  x y\n", " x\ninterface E0\n\tnameif a\n",
+		"[APPEND]\ninterface E0\n nameif a\n", "!c\n\n  \ninterface E0 \n nameif a \n", "aaa-server N protocol ldap\naaa-server N host\n",
+		"aaa-server N protocol ldap\naaa-server N (inside) host 1.2.3.4 key\n ldap-attribute-map M\naaa-server N (x) host 5.6.7.8\n ldap-attribute-map M\nldap attribute-map M\n map-name memberOf Group-Policy\n",
+		"ldap attribute-map M\n map-value memberOf \"CN=a b\n", "access-list X extended permit\n", "unknown cmd\n"} {
+		c.checkParse("asa", "router", d)
+		c.checkParse("asa", "router.raw", d)
+	}
+	for _, d := range []string{"ip access-list extended A\n 10 permit tcp any host 10.1.1.1 eq 80\n 20 deny ip any any log\n permit object-group\n",
+		"ip access-list extended A\n permit ip host\n", "interface E0\n ip address 10.1.1.1 255.255.255.0\n  sub sub\n shutdown\n"} {
+		c.checkParse("ios", "router", d)
+	}
+}
+
+// checkParse compares ParseConfig (loop, post-processing failures, dump of original lines).
+func (c *corrCtx) checkParse(model, fname, data string) {
+	if !clean(data) {
+		c.res.Count("corr-skipped-nonascii:parse")
+		return
+	}
+	isRaw := "0"
+	if filepath.Ext(fname) == ".raw" {
+		isRaw = "1"
+	}
+	req := strings.Join([]string{"parse", "1", model, isRaw, strings.ReplaceAll(data, "\n", cGS)}, cUS)
+	ans := c.drv.Ask(req)
+	m := canonModel(ans)
+	inputLines := map[string]bool{}
+	for _, l := range strings.Split(data, "\n") {
+		inputLines[strings.TrimRight(l, " \t\r\v\f")] = true
+	}
+	c.ec.take()
+	impl := func() (res string) {
+		defer func() {
+			if r := recover(); r != nil {
+				if fmt.Sprintf("%T", r) == "errlog.bailout" {
+					msg := strings.TrimSuffix(c.ec.take(), "\n")
+					msg = strings.ReplaceAll(msg, "\nERROR>>> ", "\n")
+					res = "diag:" + strings.TrimPrefix(msg, "ERROR>>> ")
+					return
+				}
+				res = "panic:" + panicKind(fmt.Sprint(r))
+			}
+		}()
+		var st *cisco.State
+		if model == "asa" {
+			st = &asa.Setup().State
+		} else {
+			st = &ios.Setup().State
+		}
+		dump, has, err := st.VerifC20Parse([]byte(data), fname)
+		if !has {
+			return "diag:" + err.Error()
+		}
+		var keep []string
+		for _, e := range dump {
+			f := strings.SplitN(e, "|", 5)
+			if !inputLines[strings.TrimPrefix(f[3], "+")] {
+				continue
+			}
+			keep = append(keep, f[0]+"|"+f[1]+"|"+f[3]+"|"+f[4])
+		}
+		sort.Strings(keep)
+		return "ok:" + strings.Join(keep, cRS)
+	}()
+	c.res.Eval("parse\n"+req, strings.Count(data, "\n") > 1)
+	c.res.TracesVsImpl++
+	c.res.Count("corr:parse-" + model)
+	c.res.Count("corr-outcome:parse-" + model + ":" + strings.SplitN(impl, ":", 2)[0])
+	okAgree := false
+	modelShown := m
+	if strings.HasPrefix(m, "ok:") {
+		parts := strings.SplitN(strings.TrimPrefix(m, "ok:"), cUS, 2)
+		if parts[0] != "" {
+			// post-processing failures: Go visits names in map order, any of them may come first
+			for _, f := range strings.Split(parts[0], cRS) {
+				if canonModel(f) == impl {
+					okAgree = true
+				}
+			}
+			modelShown = "one of: " + strings.ReplaceAll(parts[0], cRS, " || ")
+		} else {
+			d := []string{}
+			if len(parts) > 1 && parts[1] != "" {
+				d = strings.Split(parts[1], cRS)
+			}
+			sort.Strings(d)
+			modelShown = "ok:" + strings.Join(d, cRS)
+			okAgree = modelShown == impl
+		}
+	} else {
+		okAgree = m == impl
+	}
+	if !okAgree {
+		c.res.Disagree("parse-"+model, corrCase{Stream: "parse", Req: data, Extra: fname}, impl, modelShown)
+	}
+}
+
+func (c *corrCtx) runAAA(lines []string, n int) {
+	var cand [][]string
+	for _, l := range lines {
+		if strings.HasPrefix(l, "aaa-server ") {
+			cand = append(cand, strings.Split(strings.TrimRight(l, " "), " ")[2:])
+		}
+	}
+	cand = append(cand, []string{"host"}, []string{"(inside)", "host"}, []string{"(inside)", "host", "1.2.3.4", "key", "k"}, []string{"host", "1.2.3.4"},
+		[]string{"", "host", "1.2.3.4"}, []string{"(x)"}, []string{"(", "host"}, []string{"protocol", "ldap"}, []string{"host", "", "x"}, []string{"x"}, []string{"(x", "y)", "host", "z"})
+	cnt := 0
+	one := func(rest []string) {
+		if len(rest) == 0 || rest[len(rest)-1] == "" {
+			return
+		}
+		parsed := "aaa-server $NAME " + strings.Join(rest, " ")
+		orig := "aaa-server N " + strings.Join(rest, " ")
+		req := strings.Join([]string{"aaa", "1", orig, parsed}, cUS)
+		c.check("aaa-server", req, true, func() string {
+			r := cisco.VerifC20PostprocessParsed("aaa-server", []string{"N", "N"}, []string{"aaa-server $NAME protocol ldap", parsed})
+			// second entry: N|parsed|refs ; the hook used parsed as orig
+			p := strings.SplitN(r[1], "|", 3)[1]
+			if p == parsed && !(len(strings.Fields(parsed)) >= 3 && hostLine(parsed)) {
+				return "-"
+			}
+			return p
+		}, func(m string) string {
+			// the hook's orig is the parsed text
+			return strings.Replace(m, "Incomplete command: "+orig, "Incomplete command: "+parsed, 1)
+		})
+		cnt++
+	}
+	for _, r := range cand {
+		if cnt > n {
+			break
+		}
+		one(r)
+		one(mutateWords(c.rng, r))
+	}
+}
+
+// hostLine: would the aaa-server normalisation rewrite this line?
+func hostLine(parsed string) bool {
+	w := strings.Fields(parsed)
+	if len(w) < 3 {
+		return false
+	}
+	if w[2][0] == '(' {
+		copy(w[2:], w[3:])
+	}
+	return w[2] == "host"
+}
+
+func (c *corrCtx) runRoutes(lines []string, n int) {
+	var cand []string
+	for _, l := range lines {
+		t := strings.TrimRight(l, " ")
+		if strings.HasPrefix(t, "route ") || strings.HasPrefix(t, "ip route ") || strings.HasPrefix(t, "ipv6 route ") {
+			cand = append(cand, t)
+		}
+	}
+	cand = append(cand, "route inside", "route inside 10.0.0.0", "ip route vrf", "ip route vrf X", "ip route vrf X 10.0.0.0", "ip route vrf X 10.0.0.0 255.0.0.0",
+		"ip route vrf X 10.0.0.0 255.0.0.0 1.1.1.1", "ipv6 route inside a b", "ipv6 route vrf X 2001::/64 2001::1", "ipv6 route inside ::/0 2001::1 5",
+		"route inside 10.0.0.0 255.0.0.0", "route  inside 10.0.0.0 255.0.0.0 1.1.1.1", "ip route 10.0.0.0 255.0.0.0 1.1.1.1", "ip route x y z", "ipv6 route a/b")
+	maskSize := func(a, b string) string {
+		ip, err1 := netip.ParseAddr(a)
+		mask, err2 := netip.ParseAddr(b)
+		var ipp netip.Prefix
+		if err1 == nil && err2 == nil {
+			size, _ := net.IPMask(mask.AsSlice()).Size()
+			ipp = netip.PrefixFrom(ip, size)
+		}
+		return ipp.String()
+	}
+	one := func(line string) {
+		prefix := "route"
+		if strings.HasPrefix(line, "ip route") {
+			prefix = "ip route"
+		} else if strings.HasPrefix(line, "ipv6 route") {
+			prefix = "ipv6 route"
+		}
+		v6 := "0"
+		if prefix == "ipv6 route" {
+			v6 = "1"
+		}
+		req := strings.Join([]string{"route", "1", v6, line, line}, cUS)
+		c.check("dstOfRoute", req, len(strings.Fields(line)) > 2, func() string {
+			vrf, dst := cisco.VerifC20DstOfRoute(prefix, line, line)
+			return vrf + cUS + dst
+		}, func(m string) string {
+			if !strings.HasPrefix(m, "ok:") {
+				return m
+			}
+			f := strings.Split(strings.TrimPrefix(m, "ok:"), cUS)
+			dst := ""
+			if v6 == "1" {
+				p, _ := netip.ParsePrefix(f[1])
+				dst = p.String()
+			} else {
+				dst = maskSize(f[1], f[2])
+			}
+			return "ok:" + f[0] + cUS + dst
+		})
+		if prefix == "ip route" {
+			// routeVRF through alignVRFs: the device routes that survive are those of the VRF of the Netspoc route
+			req := strings.Join([]string{"vrf", "1", line, line}, cUS)
+			c.check("routeVRF", req, true, func() string {
+				pred := strings.TrimPrefix(canonModel(c.drv.Ask(req)), "ok:")
+				a := []string{"ip route vrf Vother 10.9.9.0 255.255.255.0 1.1.1.1", "ip route 10.8.8.0 255.255.255.0 1.1.1.1"}
+				if pred != "" && pred != "Vother" && !strings.ContainsAny(pred, " \t:") {
+					a = append(a, "ip route vrf "+pred+" 10.7.7.0 255.255.255.0 1.1.1.1")
+				}
+				left := cisco.VerifC20AlignVRFs(a, []string{line})
+				// which VRF survived?
+				got := "?"
+				for _, l := range left {
+					w := strings.Fields(l)
+					v := ""
+					if w[2] == "vrf" {
+						v = w[3]
+					}
+					if got == "?" {
+						got = v
+					} else if got != v {
+						got = "several"
+					}
+				}
+				if len(left) == 0 {
+					got = pred // a VRF name the probe list cannot carry (contains blanks …): nothing to compare
+				}
+				return got
+			}, nil)
+		}
+	}
+	cnt := 0
+	for _, l := range cand {
+		if cnt > n {
+			break
+		}
+		one(l)
+		w := strings.Split(l, " ")
+		for k := 1; k < len(w); k++ {
+			if w[k-1] != "" {
+				one(strings.Join(w[:k], " "))
+			}
+		}
+		m := mutateWords(c.rng, w)
+		if len(m) > 0 && m[len(m)-1] != "" && (m[0] == "route" || m[0] == "ip" || m[0] == "ipv6") {
+			one(strings.Join(m, " "))
+		}
+		cnt++
+	}
+}
+
+func (c *corrCtx) runLinux(bases []baseCase, n int) {
+	var cfgs []string
+	for _, b := range bases {
+		if b.typ != "Linux" {
+			continue
+		}
+		for nme, t := range b.files {
+			if isConfigFile(nme) && strings.TrimSpace(t) != "" {
+				cfgs = append(cfgs, t)
+			}
+		}
+	}
+	sort.Strings(cfgs)
+	drop := map[string]bool{"-m": true, "--set-xmark": true, "--set-mark": true}
+	canonKeys := func(s string) string {
+		// rule|app|orig|k1,k2 : sort keys, drop the ones normalizeIPTables renames or deletes
+		lines := strings.Split(s, "\n")
+		for i, l := range lines {
+			if strings.HasPrefix(l, "rule|") {
+				j := strings.LastIndex(l, "|")
+				var ks []string
+				for _, k := range strings.Split(l[j+1:], ",") {
+					if k != "" && !drop[k] {
+						ks = append(ks, k)
+					}
+				}
+				sort.Strings(ks)
+				lines[i] = l[:j+1] + strings.Join(ks, ",")
+			}
+		}
+		return strings.Join(lines, "\n")
+	}
+	canonDump := func(entries []string) string {
+		var routes, tabs []string
+		for _, e := range entries {
+			if strings.HasPrefix(e, "route|") {
+				routes = append(routes, e)
+			} else {
+				// table|name\nchain…\nrule… ; sort chains (with their rules) inside
+				lines := strings.Split(canonKeys(e), "\n")
+				head := lines[0]
+				var chains []string
+				for _, l := range lines[1:] {
+					if strings.HasPrefix(l, "chain|") {
+						chains = append(chains, l)
+					} else if len(chains) > 0 {
+						chains[len(chains)-1] += "\n" + l
+					}
+				}
+				sort.Strings(chains)
+				tabs = append(tabs, head+"\n"+strings.Join(chains, "\n"))
+			}
+		}
+		sort.Strings(tabs)
+		return strings.Join(append(routes, tabs...), cUS)
+	}
+	one := func(data string) {
+		req := "linux" + cUS + strings.ReplaceAll(data, "\n", cGS)
+		c.check("linux-parse", req, strings.Count(data, "\n") > 1, func() string {
+			return canonDump(linux.VerifC20Parse([]byte(data)))
+		}, func(m string) string {
+			if !strings.HasPrefix(m, "ok:") {
+				return m
+			}
+			body := strings.TrimPrefix(m, "ok:")
+			if body == "" {
+				return "ok:"
+			}
+			// the driver writes rules behind their chain separated by RS
+			return "ok:" + canonDump(strings.Split(strings.ReplaceAll(body, cRS, "\n"), cUS))
+		})
+	}
+	cnt := 0
+	for _, g := range cfgs {
+		if cnt > n {
+			break
+		}
+		one(g)
+		cnt++
+		lines := strings.Split(g, "\n")
+		for k := 0; k < 6; k++ {
+			li := c.rng.Intn(len(lines))
+			ms := lineMutations(lines[li])
+			if len(ms) == 0 {
+				continue
+			}
+			m := Pick(c.rng, ms)
+			nl := append([]string{}, lines...)
+			switch {
+			case m.drop:
+				nl = append(nl[:li], nl[li+1:]...)
+			case m.dup:
+			default:
+				nl[li] = m.text
+			}
+			one(strings.Join(nl, "\n"))
+			cnt++
+		}
+	}
+	for _, d := range []string{"*filter\n:INPUT DROP\n-A INPUT !\n", "*filter\n:INPUT DROP\n-A INPUT ! -s 1.1.1.1 ! -p tcp ! --syn -j ACCEPT\n", "-A INPUT\n", ":INPUT\n",
+		"*filter\n:INPUT\n-A INPUT -j DROP\n", "*filter\n:INPUT - [0:0]\n-A\n", "*filter\n:INPUT - x\n-D INPUT\n", "ip route add\n", "ip route add 10.0.0.0/8 via\n",
+		"ip route add default via 1.1.1.1 dev eth0\n", "ip route add 10.0.0.0/x via 1.1.1.1\n", "ip route add 10.1.1.1 via 1.1.1.1 proto 7\n", "ip route add 10.1.1.0/24 dev eth0 scope link\n",
+		"ip route del 1.1.1.1\n", "ip routex\n", "*a\n*a\n:c p\n", "*filter\n:I A\n-A I --tcp-flags ! FIN,SYN,RST,ACK SYN\n", "*f\n:I A\n[APPEND]\n-A I -j X\nCOMMIT\nfoo\n",
+		"*f\n:I A\n-A I -m state --state RELATED,ESTABLISHED -j ACCEPT -x\n", "ip route add 10.0.0.0/99999999999999999999 via 1.1.1.1\n", "ip route add 10.0.0.0/-5 via 1.1.1.1 dev\n"} {
+		one(d)
+	}
+}
+
+// ---------------------------------------------------------------- NSX / PAN-OS shapes
+
+type nsxShape struct {
+	pols, grps, srvs []string // encoded for the driver
+	json             string
+}
+
+func (c *corrCtx) genNsx(raw bool) nsxShape {
+	r := c.rng
+	var sh nsxShape
+	var jp, jg, js []string
+	id := func(kind string, i int) string {
+		l := []string{"Netspoc-" + kind + fmt.Sprint(i), "Netspoc-raw-" + kind + fmt.Sprint(i), "x" + fmt.Sprint(i), "r" + fmt.Sprint(i), "Netspoc-g" + fmt.Sprint(i)}
+		if !raw || r.Chance(70) {
+			return l[r.Intn(2)]
+		}
+		return Pick(r, l)
+	}
+	cnt := func() int { // mostly 1
+		if r.Chance(85) {
+			return 1
+		}
+		return r.Intn(3)
+	}
+	for i := 0; i < r.Intn(3); i++ {
+		if r.Chance(6) {
+			sh.pols = append(sh.pols, "-")
+			jp = append(jp, "null")
+			continue
+		}
+		pid := id("v", i)
+		enc := []string{pid}
+		var jr []string
+		for j := 0; j < r.Intn(4); j++ {
+			if r.Chance(5) {
+				enc = append(enc, "-")
+				jr = append(jr, "null")
+				continue
+			}
+			rid := Pick(r, []string{"r", "x", "Netspoc"}) + fmt.Sprint(j)
+			a, b, d := cnt(), cnt(), cnt()
+			enc = append(enc, fmt.Sprintf("%s,%d,%d,%d", rid, a, b, d))
+			list := func(n int) string {
+				var l []string
+				for k := 0; k < n; k++ {
+					l = append(l, `"ANY"`)
+				}
+				return "[" + strings.Join(l, ",") + "]"
+			}
+			jr = append(jr, fmt.Sprintf(`{"id":"%s","source_groups":%s,"destination_groups":%s,"services":%s}`, rid, list(a), list(b), list(d)))
+		}
+		sh.pols = append(sh.pols, strings.Join(enc, cGS))
+		jp = append(jp, fmt.Sprintf(`{"id":"%s","rules":[%s]}`, pid, strings.Join(jr, ",")))
+	}
+	for i := 0; i < r.Intn(4); i++ {
+		if r.Chance(6) {
+			sh.grps = append(sh.grps, "-")
+			jg = append(jg, "null")
+			continue
+		}
+		gid := id("grp", i)
+		enc := []string{gid}
+		var je []string
+		for j := 0; j < cnt(); j++ {
+			if r.Chance(6) {
+				enc = append(enc, "-")
+				je = append(je, "null")
+				continue
+			}
+			var ips, jips []string
+			for k := 0; k < r.Intn(3); k++ {
+				ips = append(ips, fmt.Sprintf("10.1.%d.%d", j, k))
+				jips = append(jips, fmt.Sprintf(`"10.1.%d.%d"`, j, k))
+			}
+			enc = append(enc, strings.Join(ips, ","))
+			je = append(je, fmt.Sprintf(`{"ip_addresses":[%s]}`, strings.Join(jips, ",")))
+		}
+		sh.grps = append(sh.grps, strings.Join(enc, cGS))
+		jg = append(jg, fmt.Sprintf(`{"id":"%s","expression":[%s]}`, gid, strings.Join(je, ",")))
+	}
+	for i := 0; i < r.Intn(3); i++ {
+		if r.Chance(6) {
+			sh.srvs = append(sh.srvs, "-")
+			js = append(js, "null")
+			continue
+		}
+		sid := id("s", i)
+		sh.srvs = append(sh.srvs, sid)
+		js = append(js, fmt.Sprintf(`{"id":"%s","service_entries":[]}`, sid))
+	}
+	sh.json = fmt.Sprintf(`{"policies":[%s],"groups":[%s],"services":[%s]}`, strings.Join(jp, ","), strings.Join(jg, ","), strings.Join(js, ","))
+	return sh
+}
+
+func (c *corrCtx) runNsx(n int) {
+	for i := 0; i < n; i++ {
+		raw := c.rng.Chance(40)
+		sh := c.genNsx(raw)
+		rw, fname := "0", "router"
+		if raw {
+			rw, fname = "1", "router.raw"
+		}
+		req := strings.Join([]string{"nsx", "1", rw, strings.Join(sh.pols, cRS), strings.Join(sh.grps, cRS), strings.Join(sh.srvs, cRS)}, cUS)
+		nulls := strings.Contains(sh.json, "null")
+		c.check("nsx-validate", req, len(sh.pols)+len(sh.grps)+len(sh.srvs) > 0, func() string {
+			if msg := nsx.VerifC20Parse([]byte(sh.json), fname); msg != "" {
+				return "DIAG:" + msg
+			}
+			return ""
+		}, nil)
+		if nulls {
+			c.res.Count("corr-nsx-with-null")
+		}
+	}
+	// accessor paths of the diff: empty ip_addresses in sortRules, device-only group in equalizeGroups
+	g := "/infra/domains/default/groups/"
+	grp := func(id, ips string) string {
+		return `{"id":"` + id + `","expression":[{"id":"id","resource_type":"IPAddressExpression","ip_addresses":[` + ips + `]}]}`
+	}
+	rule := func(id, src string) string {
+		return `{"id":"` + id + `","scope":["s"],"direction":"OUT","sequence_number":20,"action":"ALLOW","source_groups":["` + src + `"],"destination_groups":["10.1.2.30"],"services":["ANY"]}`
+	}
+	conf := func(groups, rules string) string {
+		return `{"groups":[` + groups + `],"policies":[{"id":"Netspoc-v1","rules":[` + rules + `]}],"services":[]}`
+	}
+	for _, ips := range []string{``, `"10.1.1.1"`, `"10.1.1.1","10.1.1.2"`} {
+		enc := "Netspoc-g1" + cGS + strings.ReplaceAll(strings.ReplaceAll(ips, `"`, ""), " ", "")
+		req := strings.Join([]string{"nsxfirst", "1", enc}, cUS)
+		c.check("nsx-sortRules-firstAddr", req, true, func() string {
+			cf := conf(grp("Netspoc-g1", ips), rule("r1", g+"Netspoc-g1")+","+rule("r2", g+"Netspoc-g1"))
+			if _, msg := nsx.VerifC20Diff([]byte(cf), []byte(cf)); msg != "" {
+				return "ERR " + msg
+			}
+			// the model's answer is the first address; the real code only has to get through sortRules
+			return strings.TrimPrefix(canonModel(c.drv.Ask(req)), "ok:")
+		}, nil)
+	}
+	for _, defined := range []bool{true, false} {
+		gb := "-"
+		spocGroups := ""
+		if defined {
+			gb = "Netspoc-g1" + cGS + "10.1.1.1"
+			spocGroups = grp("Netspoc-g1", `"10.1.1.1"`)
+		}
+		req := strings.Join([]string{"nsxeq", "1", "r1", g + "Netspoc-g1", "Netspoc-g1" + cGS + "10.1.1.1", gb}, cUS)
+		c.check("nsx-equalizeGroups-head", req, true, func() string {
+			dev := conf(grp("Netspoc-g1", `"10.1.1.1"`), rule("r1", g+"Netspoc-g1"))
+			spoc := conf(spocGroups, rule("r1", g+"Netspoc-g1"))
+			if _, msg := nsx.VerifC20Diff([]byte(dev), []byte(spoc)); msg != "" {
+				return "ERR " + msg
+			}
+			return "1"
+		}, nil)
+	}
+}
+
+func (c *corrCtx) runPanos(n int) {
+	gen := func() (enc, xml string) {
+		r := c.rng
+		switch r.Intn(6) {
+		case 0:
+			return "nil", "<config></config>"
+		case 1:
+			return "", "<config><devices></devices></config>"
+		}
+		var encD, xmlD []string
+		for i := 0; i < 1+r.Intn(2); i++ {
+			name := Pick(r, []string{"", "dev1", "dev1", "dev2"})
+			e := []string{name}
+			var xv []string
+			for j := 0; j < r.Intn(3); j++ {
+				vn := Pick(r, []string{"vsys1", "vsys2", "vsys1"})
+				nr := r.Intn(3)
+				e = append(e, fmt.Sprintf("%s=%d", vn, nr))
+				rules := ""
+				for k := 0; k < nr; k++ {
+					rules += fmt.Sprintf(`<entry name="x%d%d"><action>allow</action></entry>`, j, k)
+				}
+				xv = append(xv, fmt.Sprintf(`<entry name="%s"><rulebase><security><rules>%s</rules></security></rulebase></entry>`, vn, rules))
+			}
+			encD = append(encD, strings.Join(e, cGS))
+			na := ""
+			if name != "" {
+				na = ` name="` + name + `"`
+			}
+			xmlD = append(xmlD, fmt.Sprintf(`<entry%s><vsys>%s</vsys></entry>`, na, strings.Join(xv, "")))
+		}
+		return strings.Join(encD, cRS), "<config><devices>" + strings.Join(xmlD, "") + "</devices></config>"
+	}
+	for i := 0; i < n; i++ {
+		e1, x1 := gen()
+		e2, x2 := gen()
+		req := strings.Join([]string{"panos", "1", e1, e2}, cUS)
+		c.check("panos-mergeSpoc", req, e1 != "nil" || e2 != "nil", func() string { return panos.VerifC20Merge([]byte(x1), []byte(x2)) }, nil)
+	}
+}
+
+func (c *corrCtx) runInfo() {
+	contents := map[string]string{"c101": `{"model":"IOS","ip_list":["1.2.3.4"]}`, "c100": `{"model":"IOS"}`, "c110": "null", "c000": "NO_JSON", "c001": "NO_JSON"}
+	items := []string{"n", "c101", "c100", "c110", "c000"}
+	for _, a := range items {
+		for _, b := range items {
+			dir, _ := os.MkdirTemp("", "c20info")
+			os.MkdirAll(filepath.Join(dir, "ipv6"), 0755)
+			if a != "n" {
+				os.WriteFile(filepath.Join(dir, "router.info"), []byte(contents[a]), 0644)
+			}
+			if b != "n" {
+				os.WriteFile(filepath.Join(dir, "ipv6", "router.info"), []byte(contents[b]), 0644)
+			}
+			req := strings.Join([]string{"info", "1", a + cRS + b}, cUS)
+			c.check("LoadInfoFile", req, a != "n" || b != "n", func() string {
+				info, _ := codefiles.LoadInfoFile(filepath.Join(dir, "router"))
+				if len(info.IPList) > 0 {
+					return "1"
+				}
+				return "0"
+			}, nil)
+			os.RemoveAll(dir)
+		}
+	}
+}
+
+func runCorr(ctx *Ctx, res *Result) {
+	c := &corrCtx{ctx: ctx, res: res, rng: ctx.Rng.Fork()}
+	c.drv = ctx.StartNadrv("c20")
+	defer c.drv.Close()
+	c.ec = newErrCapture()
+	defer c.ec.close()
+	errlog.Quiet = true
+	c.asaS = asa.Setup()
+	c.iosS = ios.Setup()
+	bases := loadBases(ctx.Repo, func(string) {})
+	lines := testdataLines(bases, "ASA", "IOS")
+	c.runDescr()
+	c.runACL(lines, ctx.N(400, 100000))
+	c.runMatch(lines, ctx.N(1500, 100000))
+	c.runParse(bases, ctx.N(700, 6000))
+	c.runAAA(lines, ctx.N(200, 2000))
+	c.runRoutes(lines, ctx.N(150, 5000))
+	c.runLinux(bases, ctx.N(300, 5000))
+	c.runNsx(ctx.N(600, 6000))
+	c.runPanos(ctx.N(300, 3000))
+	c.runInfo()
+	res.Assumptions = append(res.Assumptions,
+		"correspondence inputs are ASCII (the models use ASCII white space for unicode.IsSpace); the correspondence compares the FIXED code (fixed = true); the snapshot behaviour (fixed = false) is tied by the replays of the counterexample inputs on the commits before the fixes, recorded in known/C20.jsonl")
+}
+
+func replayCorr(ctx *Ctx, res *Result) {
+	var cc corrCase
+	if err := ReadReplay(ctx.Replay, &cc); err != nil {
+		fmt.Fprintln(os.Stderr, err)
+		os.Exit(2)
+	}
+	c := &corrCtx{ctx: ctx, res: res, rng: ctx.Rng.Fork()}
+	c.drv = ctx.StartNadrv("c20")
+	defer c.drv.Close()
+	c.ec = newErrCapture()
+	defer c.ec.close()
+	c.asaS = asa.Setup()
+	c.iosS = ios.Setup()
+	if cc.Stream == "parse" {
+		model := "asa"
+		c.checkParse(model, cc.Extra, cc.Req)
+		c.checkParse("ios", cc.Extra, cc.Req)
+	} else {
+		fmt.Fprintln(os.Stderr, "replay of correspondence stream", cc.Stream, ": re-run ./check C20 quick; request was:", cc.Req)
+		res.Disagree(cc.Stream, cc, "see the recorded disagreement", "")
+	}
+}
